@@ -63,6 +63,39 @@ theorem parseDoc_wf (cfg : MdCfg) (hcore : coreCfgB cfg = true) (hatx : CfgAtx c
         (fun src o d hd ho => Inl.G.inlineParse_wf cfg hna hpl env henv src o d cfg.maxNested hd ho)
         _ _ _ _ _ _ hpre hr
 
+/-- the same tree has only core token types, with `attrs` of the shape `attrsShape` (used by C02Doc) -/
+theorem parseDoc_shp (cfg : MdCfg) (hcore : coreCfgB cfg = true) (hatx : CfgAtx cfg) (s : Str) (toks : List Json)
+    (h : parseDoc cfg s = .ok toks) : shpAll (wfFuel cfg) toks = true := by
+  simp only [coreCfgB, Bool.and_eq_true, List.isEmpty_iff, decide_eq_true_eq, Bool.not_eq_true'] at hcore
+  obtain ⟨⟨⟨⟨⟨hnp, hpl⟩, hbr⟩, har⟩, hfn⟩, hmx⟩ := hcore
+  have hna : (cfg.blockSpec.lookup "ref_abbr").isSome = false := by
+    simp only [noBlockPlugins, Bool.and_eq_true, Bool.not_eq_true'] at hnp
+    exact hnp.1.1.1.1.1.1.2
+  have hfn' : ¬ "footnote" ∈ cfg.inlineRules := by simpa using hfn
+  cases hb : blockParse cfg (norm s) with
+  | error e =>
+    by_cases hh : cfg.beforeParseHooks.isEmpty <;>
+      simp [parseDoc, hh, hb, hbr, har, hfn', bind, Except.bind, throw, throwThe, MonadExceptOf.throw] at h
+  | ok res =>
+    obtain ⟨btoks, env⟩ := res
+    obtain ⟨hpre, henv⟩ := blockParse_pre cfg hatx hnp hmx (norm s) btoks env hb
+    cases hr : iterRender cfg env 64 btoks with
+    | error e =>
+      by_cases hh : cfg.beforeParseHooks.isEmpty <;>
+        simp [parseDoc, hh, hb, hr, hbr, har, hfn', Hooks.beforeRender, Hooks.afterRender, bind, Except.bind, throw,
+          throwThe, MonadExceptOf.throw, pure, Except.pure] at h
+    | ok out =>
+      have e : out = toks := by
+        by_cases hh : cfg.beforeParseHooks.isEmpty <;>
+          simp [parseDoc, hh, hb, hr, hbr, har, hfn', Hooks.beforeRender, Hooks.afterRender, bind, Except.bind, throw,
+            throwThe, MonadExceptOf.throw, pure, Except.pure] at h
+        exact h
+      subst e
+      unfold iterRender at hr
+      exact iterRender_shp (inlineParse cfg env) (2 * Inl.inlineFuel + 2) cfg.maxNested
+        (fun src o ho => Inl.G.inlineParse_shp cfg hna hpl env henv src o ho)
+        _ _ _ _ _ _ hpre hr
+
 theorem wfFuel_eq (cfg : MdCfg) : wfFuel cfg = 2 * cfg.maxNested + 404 := by
   unfold wfFuel Inl.inlineFuel; omega
 
